@@ -48,10 +48,12 @@ fn gen_table(rng: &mut Rng) -> (RewriteTable, String) {
             }
             _ => (0..1 + rng.below(3)).map(|_| rng.s(TABLE_CHARS)).collect(),
         };
+        // '#' starts a comment only at the beginning of a line: inside a key or a value it is an ordinary character
+        let key = if rng.chance(1, 6) { format!("{}#{}", key, if rng.chance(1, 2) { "" } else { rng.s(TABLE_CHARS) }) } else { key };
         if key.is_empty() || key.starts_with('#') || t.replace.contains_key(&key) || key.chars().any(|c| c.is_whitespace()) {
             continue;
         }
-        let val: String = (0..1 + rng.below(3)).map(|_| rng.s(&["x", "Y", "ガ", "株式会社", "z", "あ", "Ａ", "0"])).collect();
+        let val: String = (0..1 + rng.below(3)).map(|_| rng.s(&["x", "Y", "ガ", "株式会社", "z", "あ", "Ａ", "0", "#", "(有)#"])).collect();
         t.max_key_chars = t.max_key_chars.max(key.chars().count());
         t.replace.insert(key.clone(), val);
         order.push(key);
